@@ -131,7 +131,7 @@ CLAIMS = {
         text="Encapsulation and pairing: representation fields private; every Tour method that structurally mutates `activities` mutates `jobs` on every "
              "path in the matching direction; Activity.job is never assigned or mutably borrowed after construction anywhere; the registry's available "
              "sets are mutated only by use_actor(remove)/free_actor(insert) with propagated results and get_route is gated on use_actor; deep copies "
-             "share only immutable Arc data. Not decided: depot ends, leg enumeration, counts (index arithmetic).",
+             "share only immutable Arc data; an activity is matched to a job through Job equality on its root job, and Job equality / hash are payload pointer identity. Not decided: depot ends, leg enumeration, counts (index arithmetic).",
         note="Trusted: std collection contracts, safe-Rust ownership (an owned value built from &self can only clone).",
         ref="DESIGN.md §5 C14"),
     "C15": dict(
